@@ -63,7 +63,9 @@ def strategy(shard):
         k = draw(st.integers(1, 3))
         contests = []
         for i in range(k):
-            cands = draw(st.lists(st.sampled_from(["1", "2", "3", "4", "15", "16"]), min_size=1, max_size=5, unique=True))
+            # candidate numbers as strings, or - in rows the caller parsed itself - as integers (0 is a candidate number too)
+            pool = ["1", "2", "3", "4", "15", "16"] if (shard["file"] or draw(st.integers(0, 3))) else [0, 1, 2, 3, 15]
+            cands = draw(st.lists(st.sampled_from(pool), min_size=1, max_size=5, unique=True))
             contests.append({"id": str(330 + i), "cands": cands})
         ballots = []
         nb = draw(st.integers(0, 10))
